@@ -65,6 +65,29 @@ impl J {
     }
 }
 fn coq_string(s: &str) -> String {
+    match s {
+        "pssid" => return "S_pssid".into(),
+        "exp" => return "S_exp".into(),
+        "jti" => return "S_jti".into(),
+        "ver" => return "S_ver".into(),
+        "iss" => return "S_iss".into(),
+        "aud" => return "S_aud".into(),
+        "nbf" => return "S_nbf".into(),
+        "iat" => return "S_iat".into(),
+        "sub" => return "S_sub".into(),
+        "ef16640f-0fa9-4360-be74-dbeec7ab4f9a" => return "S_uuid0".into(),
+        "ABI-RWfomxLTpFZCZhQXQAA" => return "S_pssid1".into(),
+        "ssr" => return "S_ssr".into(),
+        "snap" => return "S_snap".into(),
+        "jti-0" => return "S_jti0".into(),
+        "jti-1" => return "S_jti1".into(),
+        "JWT" => return "S_JWT".into(),
+        "k1" => return "S_k1".into(),
+        "k0" => return "S_k0".into(),
+        "other" => return "S_other".into(),
+        "1900000000" => return "S_num".into(),
+        _ => {}
+    }
     assert!(s.bytes().all(|b| (0x20..0x7f).contains(&b)), "harness strings are printable ASCII");
     format!("\"{}\"", s.replace('"', "\"\""))
 }
@@ -451,6 +474,7 @@ fn random_string(rng: &mut Rng) -> String {
 
 fn main() {
     if std::env::var("VERIF_DEBUG").is_err() { silence_panics(); }
+    scion_sdk_utils::rustls::select_ring_crypto_provider();
     // the JWKS endpoint is on loopback: never through a proxy
     unsafe { std::env::set_var("NO_PROXY", "127.0.0.1,localhost"); std::env::set_var("no_proxy", "127.0.0.1,localhost"); }
     let out = arg("--out").expect("--out");
